@@ -357,9 +357,17 @@ func ExecHistory(p History, c *hx.Case) (st HStats, err error) {
 				// Open known finding, excluded by construction: the current operators
 				// were themselves restored from checkpoints wider than their range, so
 				// their tables still hold other operators' (stale) keys; merging or
-				// re-splitting them makes those copies visible again.
-				r.c.Label("avoided:C06-remerge-of-tables-holding-foreign-keys")
-				n = oldN
+				// re-splitting them can put two tables with intersecting key ranges into
+				// one sorted level, where only one of them is consulted. Where the
+				// checkpoints at hand do not lead to such a level, the second change of
+				// the count is explored (an operator reads by prefix scan, which merges
+				// every table it visits by sequence number).
+				if SortedLevelsOverlap(w.MemFS(), jc.OperatorCheckpoints, partitioning.NewKeySpace(r.p.Groups, n).KeyGroupRanges()) {
+					r.c.Label("avoided:C06-remerge-of-tables-holding-foreign-keys")
+					n = oldN
+				} else {
+					r.c.Label("second-count-change-over-tables-holding-foreign-keys")
+				}
 			}
 			// will the new operators receive tables with keys they do not own? (a
 			// checkpoint whose state is in the write-ahead logs only hands every new
